@@ -676,7 +676,7 @@ class Pandas:
         if fname == 'partial' and args and args[0].kind == 'func':
             fn = args[0]
             return SV('func', None, partial_of=fn, pargs=list(args[1:]), pkw=dict(kwargs), name=None, node=None)
-        if fname in NUMERIC_BUILTINS and all(v.kind in ('int', 'bool', 'tuple', 'str', 'range', 'lazylist', 'none', 'dt', 'td') for v in allv):
+        if fname in ('zip', 'isinstance') or (fname in NUMERIC_BUILTINS and all(v.kind in ('int', 'bool', 'tuple', 'str', 'range', 'none', 'dt', 'td') for v in allv)):
             return NotImplemented
         if self._is_repo(fname) and all(self.convertible(v) for v in allv):
             return self.rcall(ex, st, fname, args, kwargs)
@@ -976,6 +976,26 @@ class Pandas:
 def ROWTYPE(arr_sv):
     """what np.full needs to know of an array beyond its length: the shape of one row (uninterpreted)"""
     return sv_pv(arr_sv)
+
+
+def as_list_of(t):
+    """specification side: as_list(x) of an opaque value x as a list view (same term the theory builds)"""
+    t = pv(t)
+    j = Int(fresh_name('j!asl'))
+    return plist(If(t == NONEPV, 0, If(ASL_SEQ(t), LEN(t), 1)), Lambda([j], If(ASL_SEQ(t), ITEM(t, j), t)))
+
+
+def seq_of(t):
+    """specification side: the items of an opaque iterable as a list view"""
+    t = pv(t)
+    j = Int(fresh_name('j!seq'))
+    return plist(LEN(t), Lambda([j], ITEM(t, j)))
+
+
+def mapped(lst, fn):
+    """specification side: [fn(x) for x in lst] as a list view (fn: PV term -> PV term)"""
+    j = Int(fresh_name('j!map'))
+    return plist(lst.n, Lambda([j], fn(Select(lst.arr, j))))
 
 
 def concat(a, b):
